@@ -47,10 +47,18 @@ INFO = {
  'C13-d': ('C13', "follow-up handler counts remaining_follow_ups down while the request builder treats it as the total", "a block split over 4 or more pages", 'heartbeat-trap / bad-follow-up-index'),
  'C20-c': ('C20', "remove_from_cache follows a single branch of the discarded tree", "a pop whose discarded part is not a simple chain (two discarded children, or a discarded fork that forks again)", 'block-body-leaked'),
  'C20-d': ('C20', "stale stable height passed to pop on the un-sliced path", "announced header whose block never arrives, anchor advancing to exactly that height without slicing", 'announced-header-leaked'),
+ 'C03-c': ('C03', "pop_ingested_anchor picks the child with the deepest subtree instead of the main-chain child", "heavier-but-shorter stable child vs a longer lighter sibling, ingestion paused, threshold raised during the pause", 'advance-not-due'),
+ 'C03-d': ('C03', "depth bound computed from the sum of cached tip depths instead of the block count", "testnet/regtest, anchor much heavier than its descendants, chain of hundreds of blocks below the bound, a small fork near the tip", 'advance-not-due'),
+ 'C06-c': ('C06', "zero-value address outputs not recorded in the in-progress block's delta", "zero-value addressable output, its block's ingestion paused after it, a page served between two slices", 'session-element-duplicated'),
+ 'C06-d': ('C06', "`take_while` instead of `filter` on the exact-address check of the stable index scan", "prefix address pair, the longer one owning a stable UTXO, first (offset-less) request for the shorter one", 'session-element-missing'),
+ 'C10-c': ('C10', "blocks validated against the announced-headers context", "headers of b2,b3 announced, then b3 delivered without b2", 'heartbeat-trap'),
+ 'C10-d': ('C10', "`serde(skip)` on the height index of announced headers", "header announced, upgrade, then its block delivered", 'heartbeat-trap'),
+ 'C15-c': ('C15', "upgrade fallback counts coinbases against the 10,000 window", ">= 10,000 transactions, upgrade while the boundary block is unstable, recomputation", 'fee-percentiles-wrong'),
+ 'C15-d': ('C15', "post_upgrade drops the persisted percentile cache", "percentiles computed, stabilisation without a tip change (or a kept previous answer), upgrade, query", 'fee-percentiles-wrong'),
  'C20-b': ('C20', "discarded fork cleaned only one level deep", "a discarded fork of at least two blocks", 'tx-out-leaked'),
 }
 confirm = {}
-for f in ['/var/tmp/confirm_batch1.log', '/var/tmp/confirm_batch2.log', '/var/tmp/confirm_batch3.log', '/var/tmp/confirm_batch4.log']:
+for f in ['/var/tmp/confirm_batch1.log', '/var/tmp/confirm_batch2.log', '/var/tmp/confirm_batch3.log', '/var/tmp/confirm_batch4.log', '/var/tmp/confirm_batch5.log']:
     if os.path.exists(f):
         for line in open(f):
             m = re.match(r'RESULT (\S+) (\S+) demo-filter=(\S+) with-patch:failed=(\d+),ok=(\d+) without-patch:failed=(\d+),ok=(\d+)', line)
